@@ -209,8 +209,10 @@ type Env struct {
 	Root   channel.ID
 	errMu  sync.Mutex
 	Errs   []string
-	stop   chan struct{}
-	wg     sync.WaitGroup
+	// Inconclusive: the scenario program itself could not be carried out (e.g. a channel could not be opened)
+	Inconclusive []string
+	stop         chan struct{}
+	wg           sync.WaitGroup
 	// Ticks counts the clock ticks of the driver.
 	Ticks  int
 	gaveUp atomic.Bool
@@ -224,7 +226,7 @@ func (e *Env) errf(f string, a ...interface{}) {
 
 // reactionDeadline bounds (in real time) the wait for a reaction that the urgency assumption promises.
 // When it passes the clock moves on and the run is judged as it is.
-const reactionDeadline = 5 * time.Second
+const reactionDeadline = 20 * time.Second
 
 // Deadline for a single client operation in real time. It is only reached when something is stuck.
 const opDeadline = 150 * time.Second
@@ -295,7 +297,7 @@ func (p *Party) handleProposal(prop client.ChannelProposal, r *client.ProposalRe
 		}
 		ch, err := r.Accept(ctx, acc)
 		if err != nil {
-			p.env.errf("party %d: accepting proposal: %v", p.I, err)
+			p.env.notef("party %d: accepting proposal: %v", p.I, err)
 			p.newCh <- nil
 			return
 		}
@@ -324,6 +326,13 @@ func (p *Party) handleUpdate(_ *channel.State, cu client.ChannelUpdate, r *clien
 
 // note records an event that is not an error of the harness (e.g. an update refused during a dispute).
 func (e *Env) note(f string, a ...interface{}) {}
+
+// notef records something that makes the scenario inconclusive (it is reported as a warning, not judged).
+func (e *Env) notef(f string, a ...interface{}) {
+	e.errMu.Lock()
+	e.Inconclusive = append(e.Inconclusive, fmt.Sprintf(f, a...))
+	e.errMu.Unlock()
+}
 
 // StartWatch starts Channel.Watch for a channel of a party and waits until the publisher is installed.
 func (e *Env) StartWatch(p *Party, ch *client.Channel) {
